@@ -1273,16 +1273,24 @@ def _parse_header(line: str) -> tuple[str, dict[str, str]]:
     decoded_params.pop(0)  # get rid of the dummy again
     pdict = {}
     for name, decoded_value in decoded_params:
-        try:
+        if isinstance(decoded_value, tuple):
+            # Extended (RFC 2231) value. decode_params has wrapped the text in quotes
+            # and backslash-escaped any '"' and '\\' in it; undo that before decoding
+            # (as email.message does), otherwise the escapes end up in the result.
+            charset, language, text = decoded_value
+            text = email.utils.unquote(text)
+            try:
+                value = email.utils.collapse_rfc2231_value((charset, language, text))
+            except ValueError:
+                # The charset of an extended value comes from the input.
+                # collapse_rfc2231_value only handles unknown codecs (LookupError); codecs
+                # such as idna, punycode or undefined raise UnicodeError and a NUL in the
+                # charset name raises ValueError. Keep the percent-decoded text as is.
+                value = text
+        else:
             value = email.utils.collapse_rfc2231_value(decoded_value)
-        except ValueError:
-            # The charset of an extended value comes from the input.
-            # collapse_rfc2231_value only handles unknown codecs (LookupError); codecs
-            # such as idna, punycode or undefined raise UnicodeError and a NUL in the
-            # charset name raises ValueError. Keep the percent-decoded text as is.
-            value = email.utils.unquote(decoded_value[2])
-        if len(value) >= 2 and value[0] == '"' and value[-1] == '"':
-            value = value[1:-1]
+            if len(value) >= 2 and value[0] == '"' and value[-1] == '"':
+                value = value[1:-1]
         pdict[name] = value
     return key, pdict
 
